@@ -71,7 +71,9 @@ func (r *Row) Add(c Cell) *Row {
 		// the row already belongs to a table: keep the table's column count in step
 		r.inTable.resizeColumnsAtLeast(column)
 	}
-	invokePropertyCallbacks(r.rowCellCallbacks, CB_AT_ADD, ptr, r.ErrorContainer)
+	// r, not r.ErrorContainer: a detached row has no container yet, and a nil
+	// *ErrorContainer inside the ErrorReceiver would silently drop the error
+	invokePropertyCallbacks(r.rowCellCallbacks, CB_AT_ADD, ptr, r)
 	return r
 }
 
